@@ -23,22 +23,32 @@ type Term struct {
 	S    string
 	Args []*Term
 	V    ssa.Value
+	Ctx  string // expansion context: tells apart instances of one SSA value in different inlined calls
+}
+
+type renKey struct {
+	v   ssa.Value
+	ctx string
 }
 
 type renamer struct {
-	ids map[ssa.Value]int
+	ids map[renKey]int
 	n   map[string]int
 	key bool // Key mode: impure calls are told apart by call site
 }
 
-func newRenamer() *renamer { return &renamer{ids: map[ssa.Value]int{}, n: map[string]int{}} }
+func newRenamer() *renamer { return &renamer{ids: map[renKey]int{}, n: map[string]int{}} }
 
 var keyMu sync.Mutex
 
-func (r *renamer) id(kind string, v ssa.Value) int {
+func (r *renamer) id(kind string, v0 ssa.Value, ctx ...string) int {
 	if r.key {
 		keyMu.Lock()
 		defer keyMu.Unlock()
+	}
+	v := renKey{v: v0}
+	if len(ctx) > 0 {
+		v.ctx = ctx[0]
 	}
 	if id, ok := r.ids[v]; ok {
 		return id
@@ -59,7 +69,7 @@ func (t *Term) String() string {
 
 // keyIDs gives process-wide unique numbers to the values that String numbers
 // by first occurrence, so that Key is a sound symbol name across terms.
-var keyIDs = &renamer{ids: map[ssa.Value]int{}, n: map[string]int{}, key: true}
+var keyIDs = &renamer{ids: map[renKey]int{}, n: map[string]int{}, key: true}
 
 // Key prints the term with globally unique ids for fresh buffers and loop
 // counters: two Keys are equal only if the terms denote the same value.
@@ -86,10 +96,10 @@ func (t *Term) print(sb *strings.Builder, ren *renamer) {
 	case "Const", "Nil", "Recv", "Param", "Global", "Func", "Type":
 		sb.WriteString(t.S)
 	case "RangeIdx":
-		fmt.Fprintf(sb, "RangeIdx#%d", ren.id("RangeIdx", t.V))
+		fmt.Fprintf(sb, "RangeIdx#%d", ren.id("RangeIdx", t.V, t.Ctx))
 	case "Rand", "ReadN", "Zero", "Copy":
 		// fresh buffers are numbered by first occurrence in the printed term
-		fmt.Fprintf(sb, "%s#%d(", t.Op, ren.id(t.Op, t.V))
+		fmt.Fprintf(sb, "%s#%d(", t.Op, ren.id(t.Op, t.V, t.Ctx))
 		args(",")
 		sb.WriteString(")")
 	case "Field":
@@ -111,7 +121,7 @@ func (t *Term) print(sb *strings.Builder, ren *renamer) {
 	case "Call", "Invoke":
 		sb.WriteString(t.S)
 		if ren.key && t.V != nil && t.S != "len" && t.S != "cap" {
-			fmt.Fprintf(sb, "#%d", ren.id("call", t.V))
+			fmt.Fprintf(sb, "#%d", ren.id("call", t.V, t.Ctx))
 		}
 		sb.WriteString("(")
 		args(", ")
@@ -126,7 +136,7 @@ func (t *Term) print(sb *strings.Builder, ren *renamer) {
 	default:
 		sb.WriteString(t.Op)
 		if ren.key && t.Op == "CallV" && t.V != nil {
-			fmt.Fprintf(sb, "#%d", ren.id("call", t.V))
+			fmt.Fprintf(sb, "#%d", ren.id("call", t.V, t.Ctx))
 		}
 		if t.S != "" {
 			sb.WriteString("[" + t.S + "]")
@@ -189,6 +199,8 @@ type TB struct {
 	active map[ssa.Value]bool
 	loadID map[ssa.Value]int
 	nextEpoch int
+	depth  int
+	stack  []*ssa.Function
 	// NoGlobalInit disables the resolution of package variables to their
 	// initialiser.
 	NoGlobalInit bool
@@ -361,6 +373,11 @@ func (tb *TB) build(v ssa.Value) *Term {
 	case *ssa.SliceToArrayPointer:
 		return tb.Term(x.X)
 	case *ssa.Extract:
+		if c, ok := x.Tuple.(*ssa.Call); ok {
+			if t := tb.expandResult(c, x.Index); t != nil {
+				return t
+			}
+		}
 		return mk("Ext", strconv.Itoa(x.Index), v, tb.Term(x.Tuple))
 	case *ssa.BinOp:
 		return mk("Bin", x.Op.String(), v, tb.Term(x.X), tb.Term(x.Y))
@@ -1285,6 +1302,11 @@ func (tb *TB) resolvedCalleeName(c *ssa.CallCommon) string {
 }
 
 func (tb *TB) call(c *ssa.Call) *Term {
+	if _, isTuple := c.Type().(*types.Tuple); !isTuple {
+		if t := tb.expandResult(c, 0); t != nil {
+			return t
+		}
+	}
 	cc := &c.Call
 	name := calleeName(cc)
 	var args []*Term
